@@ -16,6 +16,7 @@ import Driver.Bisync
 import Driver.Watch
 import Driver.Caches
 import Driver.Steps
+import Driver.Transfer
 
 namespace Driver
 
@@ -36,6 +37,7 @@ def dispatch (toks : List String) : String :=
       else if area == "watch" then Driver.Watch.handle toks
       else if area == "caches" then Driver.Caches.handle toks
       else if area == "steps" then Driver.Steps.handle toks
+      else if area == "xfer" then Driver.Transfer.handle toks
       else none
     r.getD "bad-op"
 
